@@ -69,6 +69,12 @@ theorem u16_small {n : Nat} (h : n < 65536) : (UInt16.ofNat n).toNat = n := by
   simp [UInt8.toNat_ofNat']
   omega
 
+theorem word16_of_nat {n : Nat} (h : n < 65536) :
+    word16 (UInt8.ofNat (n / 256)) (UInt8.ofNat (n % 256)) = UInt16.ofNat n := by
+  have := word16_be16 (UInt16.ofNat n)
+  rw [u16_small h] at this
+  exact this
+
 theorem word16_toNat (a b : UInt8) : (word16 a b).toNat = a.toNat * 256 + b.toNat := by
   unfold word16
   have := a.toNat_lt; have := b.toNat_lt
